@@ -123,7 +123,10 @@ def _case(draw):
         # what follows the block in the .cap file (only its first block counts): nothing, blank lines, a comment, another block
         tail = draw(st.sampled_from(["", "", "\n", "\n\n", "# a comment at the end\n", "\n# comment\n", "\nName=second block\nNumb=9\n"]))
         caps.append([target, list(draw(_override_fields(allow_hide=target not in linked))), tail])
-    return {"children": children, "linkfiles": linkfiles, "caps": caps,
+    # dot files the ignore pattern excludes (an editor's backup of a link file, something in the '.cache' namespace): the
+    # configuration file documents that they are not scanned for links, whatever they contain
+    decoys = draw(st.lists(st.sampled_from([".names~", ".Links~", ".cache-names", ".link~"]), max_size=2, unique=True))
+    return {"children": children, "linkfiles": linkfiles, "caps": caps, "decoys": decoys,
             "extstrip": draw(st.sampled_from(["none", "nonencoded", "full"])), "depth": depth}
 
 
@@ -177,6 +180,12 @@ def _build(case):
         text = head + sep.join(_block_text(b) for b in blocks)
         linktexts[lf] = text
         spec.append([pre + lf, "f", text])
+    for dn in case.get("decoys", []):
+        kids = [c["name"] for c in case["children"]]
+        text = "Name=Retired mirror (decoy)\nType=1\nPath=/old\nHost=old.example\nPort=70\n"
+        if kids:
+            text = "Path=./%s\nName=DRAFT title (decoy)\nNumb=5\n\n" % kids[0] + text + "\nType=X\nPath=./%s\n" % kids[-1]
+        spec.append([pre + dn, "f", text])
     captexts = {}
     for cap in case["caps"]:
         target, fields = cap[0], cap[1]
